@@ -34,6 +34,50 @@ theorem const_roundtrip (d : Bytes) (v n base pe : Nat)
   have := parseNumLoop_roundtrip d v n base pe henc' hfit n 0 (by omega)
   simpa [parseNumConstant, Nat.mod_one] using this
 
+/-- largest value + 1 a PkgLength of `w` bytes can carry (6 bits, then 4 + 8·(w−1) bits) -/
+def pkgBound (w : Nat) : Nat := if w ≤ 1 then 64 else 2 ^ (4 + 8 * (w - 1))
+
+/-- **PkgLength round-trips in all four encodings** (`Lex.pkglen_roundtrip`): for every table, position,
+width `1 ≤ w ≤ 4` and value `v < pkgBound w`: if the `w` bytes at `base` are `encPkgLength v w` and lie
+below `pkgEnd`, `parsePkgLength` returns exactly `v`, succeeds, and advances by exactly `w`. -/
+theorem pkglen_roundtrip (d : Bytes) (v w base pe : Nat) (hw : 1 ≤ w ∧ w ≤ 4) (hv : v < pkgBound w)
+    (henc : ∀ i, i < w → d[base + i]? = (encPkgLength v w)[i]?) (hfit : base + w ≤ pe) :
+    parsePkgLength d { offset := base, pkgEnd := pe } =
+      .ok ((v, PRes.ok), { offset := base + w, pkgEnd := pe }) := by
+  have hcases : w = 1 ∨ w = 2 ∨ w = 3 ∨ w = 4 := by omega
+  rcases hcases with rfl | rfl | rfl | rfl
+  · have h0 := henc 0 (by omega)
+    simp [pkgBound] at hv
+    simp [encPkgLength] at h0
+    have : v % 64 = v := by omega
+    rw [this] at h0
+    exact pkglen1 d v base pe hv hfit h0
+  · have h0 := henc 0 (by omega)
+    have h1 := henc 1 (by omega)
+    simp [pkgBound] at hv
+    simp [encPkgLength, List.range, List.range.loop] at h0 h1
+    rw [show (64 : UInt8) + UInt8.ofNat (v % 16) = UInt8.ofNat (64 + v % 16) by simp [UInt8.ofNat_add]] at h0
+    exact pkglen2 d v base pe hv hfit h0 h1
+  · have h0 := henc 0 (by omega)
+    have h1 := henc 1 (by omega)
+    have h2 := henc 2 (by omega)
+    simp [pkgBound] at hv
+    simp [encPkgLength, List.range, List.range.loop] at h0 h1 h2
+    rw [show (128 : UInt8) + UInt8.ofNat (v % 16) = UInt8.ofNat (128 + v % 16) by simp [UInt8.ofNat_add]] at h0
+    exact pkglen3 d v base pe hv hfit h0 h1 h2
+  · have h0 := henc 0 (by omega)
+    have h1 := henc 1 (by omega)
+    have h2 := henc 2 (by omega)
+    have h3 := henc 3 (by omega)
+    simp [pkgBound] at hv
+    simp [encPkgLength, List.range, List.range.loop] at h0 h1 h2 h3
+    rw [show (192 : UInt8) + UInt8.ofNat (v % 16) = UInt8.ofNat (192 + v % 16) by simp [UInt8.ofNat_add]] at h0
+    exact pkglen4 d v base pe hv hfit h0 h1 h2 h3
+
+/-- non-vacuity: the three-byte encoding of 0x12345 -/
+example : parsePkgLength (#[0x85, 0x34, 0x12] : Bytes) { offset := 0, pkgEnd := 3 } =
+    .ok ((0x12345, PRes.ok), { offset := 3, pkgEnd := 3 }) := by decide
+
 /-- non-vacuity: a DWord constant inside a 6-byte table -/
 example : parseNumConstant (#[0x0c, 0xef, 0xbe, 0xad, 0xde, 0x00] : Bytes) 4 { offset := 1, pkgEnd := 6 } =
     .ok ((0xdeadbeef, PRes.ok), { offset := 5, pkgEnd := 6 }) := by decide
